@@ -7,16 +7,43 @@ open YaegiVerif.Ops YaegiVerif.Spec.GoInt
 theorem norm64 (s : Bool) (v : BitVec 64) : norm s 64 v = v := by
   cases s <;> simp [norm]
 
+/-- the conjuncts of `wfWiden` -/
+theorem wfWiden_unpack (W : List WidenEntry) (hW : wfWiden W = true) :
+    lookupWiden W .genValueInt .int = some .int ∧
+    lookupWiden W .genValueInt .uint = some (.cast .tInt64 .uint) ∧
+    lookupWiden W .genValueUint .int = some (.cast .tUint64 .int) ∧
+    lookupWiden W .genValueUint .uint = some .uint ∧
+    lookupWiden W .vInt .int = some .int ∧
+    lookupWiden W .vInt .uint = some (.cast .tInt64 .uint) ∧
+    lookupWiden W .vUint .int = some (.cast .tUint64 .int) ∧
+    lookupWiden W .vUint .uint = some .uint ∧
+    lookupWiden W .vInt .untypedConst = some .constInt64 ∧
+    lookupWiden W .vUint .untypedConst = some .constUint64 ∧
+    lookupWiden W .genValueShiftCount .int = some (.cast .tUint64 (.nonNeg .int)) ∧
+    lookupWiden W .genValueShiftCount .uint = some .uint := by
+  simpa [wfWiden, Bool.and_eq_true, and_assoc] using hW
+
 /-- what `wfWiden` gives: every integer extractor yields the widened operand at the extractor's own Go type -/
 theorem load_g (W : List WidenEntry) (hW : wfWiden W = true) (t s : Bool) (ch : Nat)
     {w : Nat} (x : BitVec w) (a b : Arg)
     (harg : (if ch = 0 then a else if ch = 1 then b else Arg.absent) = .typed s w x) :
     loadOperand W ⟨gX t, ch, .none⟩ a b = .val (some t, widen s x) ∧
     loadOperand W ⟨vX t, ch, .none⟩ a b = .val (some t, widen s x) := by
-  simp only [wfWiden, Bool.and_eq_true, beq_iff_eq] at hW
-  obtain ⟨⟨⟨⟨⟨⟨⟨⟨⟨h1, h2⟩, h3⟩, h4⟩, h5⟩, h6⟩, h7⟩, h8⟩, _⟩, _⟩ := hW
+  obtain ⟨h1, h2, h3, h4, h5, h6, h7, h8, _, _, _, _⟩ := wfWiden_unpack W hW
   cases t <;> cases s <;>
     simp [loadOperand, gX, vX, harg, Arg.cls, h1, h2, h3, h4, h5, h6, h7, h8, evalConv, CastTy.int?, Outcome.map, norm64, widen]
+
+/-- the run-time count of a shift, read through genValueShiftCount: a negative count of a signed kind panics, any
+    other count arrives as uint64 -/
+theorem load_count (W : List WidenEntry) (hW : wfWiden W = true) (cs : Bool) {cw : Nat} (c : BitVec cw) (a : Arg) :
+    loadOperand W ⟨.genValueShiftCount, 1, .none⟩ a (.typed cs cw c) =
+      if cs = true ∧ (widen cs c).msb = true then .panicShift else .val (some false, widen cs c) := by
+  obtain ⟨_, _, _, _, _, _, _, _, _, _, h11, h12⟩ := wfWiden_unpack W hW
+  cases cs
+  · simp [loadOperand, Arg.cls, h12, evalConv, Outcome.map]
+  · by_cases hm : (widen true c).msb = true
+    · simp [loadOperand, Arg.cls, h11, evalConv, CastTy.int?, Outcome.map, Outcome.bind, hm]
+    · simp [loadOperand, Arg.cls, h11, evalConv, CastTy.int?, Outcome.map, Outcome.bind, hm, norm64]
 
 /-- tokens whose 64-bit result is a bit pattern / a Boolean -/
 def Tok.isBits : Tok → Bool
@@ -80,33 +107,67 @@ theorem entry_binary (W : List WidenEntry) (hW : wfWiden W = true) (e : Entry) (
   have hl' : loadOperand W e.l (.typed e.cls.signed w x) (.typed e.cls.signed w y) = .val (some e.cls.signed, widen e.cls.signed x) := by
     rw [hl]; rcases hg with h | h | h | h <;> simp only [h, expL] <;> (try split) <;> first | exact L.1 | exact L.2
   have hr' : loadOperand W e.r (.typed e.cls.signed w x) (.typed e.cls.signed w y) = .val (some e.cls.signed, widen e.cls.signed y) := by
-    rw [hr]; rcases hg with h | h | h | h <;> simp only [h, expR, Group.isShift, Bool.false_eq_true, if_false] <;> (try split) <;> first | exact R.1 | exact R.2
+    rw [hr]; rcases hg with h | h | h | h <;> simp only [h, expR] <;> (try split) <;> first | exact R.1 | exact R.2
   have hne : e.r.ext ≠ .none := by
-    rw [hr]; rcases hg with h | h | h | h <;> simp only [h, expR, Group.isShift, Bool.false_eq_true, if_false] <;> (try split) <;>
+    rw [hr]; rcases hg with h | h | h | h <;> simp only [h, expR] <;> (try split) <;>
       cases e.cls.signed <;> simp [gX, vX]
   unfold evalEntry binop
   rw [hl']; simp only [Outcome.bind, hne, if_false]
   rw [hr']; simp only [Option.getD]
   rw [hs, ht]; exact bind_expStore e.fn hgo _ _ _ _ _ _ _
 
-/-- shift closures: the count has its own kind and is read as an unsigned 64-bit number -/
-theorem entry_shift (W : List WidenEntry) (hW : wfWiden W = true) (e : Entry) (hwf : wfEntry e = true)
-    (hg : e.fn.group = .shift ∨ e.fn.group = .shiftAssign ∨ e.fn.group = .shiftFold)
-    {w : Nat} (x : BitVec w) (cs : Bool) {cw : Nat} (c : BitVec cw) :
+/-- which shift closures have a compile-time count (read through vUint) -/
+def ConstCount (e : Entry) : Prop :=
+  (e.variant = .cr ∧ (e.fn.group = .shift ∨ e.fn.group = .shiftAssign)) ∨ e.fn.group = .shiftFold
+
+/-- … and which have a run-time count (read through genValueShiftCount) -/
+def RunCount (e : Entry) : Prop :=
+  e.variant ≠ .cr ∧ (e.fn.group = .shift ∨ e.fn.group = .shiftAssign)
+
+instance (e : Entry) : Decidable (ConstCount e) := by unfold ConstCount; infer_instance
+instance (e : Entry) : Decidable (RunCount e) := by unfold RunCount; infer_instance
+
+/-- shift closures with a compile-time count: the count has its own kind and is read as an unsigned 64-bit number -/
+theorem entry_shift_const (W : List WidenEntry) (hW : wfWiden W = true) (e : Entry) (hwf : wfEntry e = true)
+    (hg : ConstCount e) {w : Nat} (x : BitVec w) (cs : Bool) {cw : Nat} (c : BitVec cw) :
     evalEntry W e (.typed e.cls.signed w x) (.typed cs cw c) e.cls.signed w = shiftop e.tok e.cls.signed x cs c := by
   obtain ⟨_, hgo, hl, hr, ht, hs⟩ := wf_unpack e hwf
   have L := load_g W hW e.cls.signed e.cls.signed 0 x (.typed e.cls.signed w x) (.typed cs cw c) (by simp)
   have R := load_g W hW false cs 1 c (.typed e.cls.signed w x) (.typed cs cw c) (by simp)
   have hl' : loadOperand W e.l (.typed e.cls.signed w x) (.typed cs cw c) = .val (some e.cls.signed, widen e.cls.signed x) := by
-    rw [hl]; rcases hg with h | h | h <;> simp only [h, expL] <;> (try split) <;> first | exact L.1 | exact L.2
+    rw [hl]; rcases hg with ⟨_, h | h⟩ | h <;> simp only [h, expL] <;> (try split) <;> first | exact L.1 | exact L.2
+  have hr0 : e.r = ⟨.vUint, 1, .none⟩ := by
+    rw [hr]; rcases hg with ⟨hv, h | h⟩ | h
+    · simp [h, hv, expR]
+    · simp [h, hv, expR]
+    · simp [h, expR]
   have hr' : loadOperand W e.r (.typed e.cls.signed w x) (.typed cs cw c) = .val (some false, widen cs c) := by
-    rw [hr]; rcases hg with h | h | h <;> simp only [h, expR, Group.isShift, if_true] <;> (try split) <;> first | exact R.1 | exact R.2
-  have hne : e.r.ext ≠ .none := by
-    rw [hr]; rcases hg with h | h | h <;> simp only [h, expR, Group.isShift, if_true] <;> (try split) <;> simp [gX, vX]
+    rw [hr0]; exact R.2
+  have hne : e.r.ext ≠ .none := by rw [hr0]; simp
   unfold evalEntry shiftop
   rw [hl']; simp only [Outcome.bind, hne, if_false]
   rw [hr']; simp only [Option.getD]
   rw [hs, ht]; exact bind_expStore e.fn hgo _ _ _ _ _ _ _
+
+/-- shift closures with a run-time count: a negative count of a signed kind panics -/
+theorem entry_shift_run (W : List WidenEntry) (hW : wfWiden W = true) (e : Entry) (hwf : wfEntry e = true)
+    (hg : RunCount e) {w : Nat} (x : BitVec w) (cs : Bool) {cw : Nat} (c : BitVec cw) :
+    evalEntry W e (.typed e.cls.signed w x) (.typed cs cw c) e.cls.signed w = shiftopRun e.tok e.cls.signed x cs c := by
+  obtain ⟨_, hgo, hl, hr, ht, hs⟩ := wf_unpack e hwf
+  obtain ⟨hv, hg⟩ := hg
+  have L := load_g W hW e.cls.signed e.cls.signed 0 x (.typed e.cls.signed w x) (.typed cs cw c) (by simp)
+  have hl' : loadOperand W e.l (.typed e.cls.signed w x) (.typed cs cw c) = .val (some e.cls.signed, widen e.cls.signed x) := by
+    rw [hl]; rcases hg with h | h <;> simp only [h, expL] <;> (try split) <;> first | exact L.1 | exact L.2
+  have hr0 : e.r = ⟨.genValueShiftCount, 1, .none⟩ := by
+    rw [hr]; rcases hg with h | h <;> simp [h, hv, expR]
+  have hne : e.r.ext ≠ .none := by rw [hr0]; simp
+  unfold evalEntry shiftopRun shiftop
+  rw [hl']; simp only [Outcome.bind, hne, if_false]
+  rw [hr0, load_count W hW cs c]
+  by_cases hm : cs = true ∧ (widen cs c).msb = true
+  · rw [if_pos hm, if_pos hm]
+  · rw [if_neg hm, if_neg hm]; simp only [Option.getD]
+    rw [hs, ht]; exact bind_expStore e.fn hgo _ _ _ _ _ _ _
 
 /-- `x++`, `x--` -/
 theorem entry_incdec (W : List WidenEntry) (hW : wfWiden W = true) (e : Entry) (hwf : wfEntry e = true)
